@@ -286,3 +286,43 @@ fn c16_allowance_counts_match_sample_rate() {
     vcover!(fs == 192_000, "witness: 192 kHz");
     vcover!(fs % 1000 == 999, "witness: just below a whole kHz");
 }
+
+// @harness prop=C16,C17 tier=quick timeout=1200
+// @about resistor triples through the real poll(): four concrete triples (softpot, dropper, pull-up) chosen symbolically -- the documented default (20k, 820, 1M) and three with the WEAKEST allowed pull-up (= softpot + dropper): (20k, 820, 20820), (10k, 100, 10100), (100k, 10k, 110k) -- at 200 Hz (capacity 4): the capture buffer is filled with a constant in-range run at position m (2^-6 grid; mean = m exactly), counters as c15_poll_step proves them, one real poll(m) completes the capture: value() lies in [0,1]; a second controller with the same resistors pressed at a higher position m2 >= m does not report a lower value (2 ulp) -- the pull-up correction is applied to the same quantity it is subtracted from. (With the triple fully symbolic the query -- three symbolic float divisions and two products -- did not finish in 15 min; c16_resistor_triples_keep_value_in_range covers every triple at the level of error_estimate().)
+#[kani::proof]
+#[kani::unwind(7)]
+fn c16_value_in_range_and_monotone_for_any_resistor_triple() {
+    let which: u8 = kani::any();
+    kani::assume(which < 4);
+    let (softpot, dropper, pullup): (f32, f32, f32) = match which {
+        0 => (20.0e3, 820.0, 1.0e6),
+        1 => (20.0e3, 820.0, 20_820.0),
+        2 => (10.0e3, 100.0, 10_100.0),
+        _ => (100.0e3, 10.0e3, 110.0e3),
+    };
+    const CAP: usize = sample_rate_to_capacity(200);
+    let mut a: RibbonController<CAP> = RibbonController::new(200.0, softpot, dropper, pullup);
+    let mut b: RibbonController<CAP> = RibbonController::new(200.0, softpot, dropper, pullup);
+    let k1: u8 = kani::any();
+    let k2: u8 = kani::any();
+    kani::assume(k1 <= k2 && k2 <= 64);
+    let (m1, m2) = (k1 as f32 / 64.0, k2 as f32 / 64.0);
+    kani::assume(m2 < a.finger_press_high_boundary);
+    let mut i = 0;
+    while i < CAP - 1 {
+        a.buff.write(m1);
+        b.buff.write(m2);
+        i += 1;
+    }
+    a.num_samples_received = a.num_to_ignore_up_front;
+    a.num_samples_written = CAP - 1;
+    b.num_samples_received = b.num_to_ignore_up_front;
+    b.num_samples_written = CAP - 1;
+    a.poll(m1);
+    b.poll(m2);
+    vassert!(a.finger_is_pressing() && b.finger_is_pressing(), "C16/press-reported-after-full-capture");
+    vassert!(a.value() >= 0.0 && a.value() <= 1.0 && b.value() >= 0.0 && b.value() <= 1.0, "C16/value/in-[0,1]");
+    vassert!(b.value() >= a.value() - 2.0 * 1.1920929e-7, "C16/value/does-not-decrease-when-a-contributing-sample-increases");
+    vcover!(which == 1 && k1 == 1, "witness: weakest allowed pull-up, press near the bottom");
+    vcover!(k1 < k2, "witness: two positions");
+}
